@@ -4,6 +4,7 @@ import (
 	"bytes"
 	"encoding/binary"
 	"errors"
+	"fmt"
 	"os"
 	"strings"
 	"time"
@@ -72,7 +73,14 @@ func LoadCCache(cpath string) (*CCache, error) {
 }
 
 // Unmarshal a byte slice of credential cache data into CCache type.
-func (c *CCache) Unmarshal(b []byte) error {
+func (c *CCache) Unmarshal(b []byte) (err error) {
+	// The readers index into b without checking its length: truncated or corrupt data surfaces as
+	// a run-time panic, which is reported as an error.
+	defer func() {
+		if r := recover(); r != nil {
+			err = fmt.Errorf("invalid credential cache data: %v", r)
+		}
+	}()
 	p := 0
 	//The first byte of the file always has the value 5
 	if int8(b[p]) != 5 {
@@ -174,11 +182,17 @@ func parseCredential(b []byte, p *int, c *CCache, e *binary.ByteOrder) (cred *Cr
 	cred.TicketFlags = types.NewKrbFlags()
 	cred.TicketFlags.Bytes = readBytes(b, p, 4, e)
 	l := int(readInt32(b, p, e))
+	if l < 0 || l > len(b) {
+		return cred, errors.New("invalid credential cache data: address count exceeds the size of the data")
+	}
 	cred.Addresses = make([]types.HostAddress, l, l)
 	for i := range cred.Addresses {
 		cred.Addresses[i] = readAddress(b, p, e)
 	}
 	l = int(readInt32(b, p, e))
+	if l < 0 || l > len(b) {
+		return cred, errors.New("invalid credential cache data: authorization data count exceeds the size of the data")
+	}
 	cred.AuthData = make([]types.AuthorizationDataEntry, l, l)
 	for i := range cred.AuthData {
 		cred.AuthData[i] = readAuthDataEntry(b, p, e)
